@@ -221,8 +221,7 @@ def gen_mover_program(rng):
             k = "reshape"
         if k in ("permute", "transpose", "expand"):
             contiguous = False
-        if k == "reshape":
-            contiguous = True
+        # (reshape of a non-contiguous tensor may itself return a non-contiguous view: contiguity is never regained)
         if k in ("reshape", "view"):
             divs = [d for d in range(1, n + 1) if n % d == 0]
             a = rng.choice(divs)
